@@ -6,7 +6,7 @@ from engine.common import VERIF
 
 H = os.path.join(VERIF, "harness", "api")
 QUICK = ["c11_dataset_graph_view", "c11_dataset_graph_triples", "c11_union_graph_view", "c11_partial_union_view", "c11_partial_union_not_view",
-         "c11_gad_any", "c11_gad_const", "c11_gad_two", "c11_gad_not", "c11_gad_kind", "c11_mutate_dataset_graph", "c11_mutate_graph_as_dataset", "c11_gad_bulk"]
+         "c11_gad_any", "c11_gad_const", "c11_gad_two", "c11_gad_not", "c11_gad_kind", "c11_mutate_dataset_graph", "c11_mutate_graph_as_dataset", "c11_gad_bulk", "c11_contains"]
 THOROUGH = QUICK + ["c11_gad_opt"]
 
 
